@@ -173,7 +173,9 @@ def body(ctx):
             keys = list(opts.keys())
             vals = [as_list(opts[k]) for k in keys]
             kt = C.slist(keys)
-            vt = "[" + ";".join(",".join(str(v) for v in vs) for vs in vals) + "]"
+            # a scalar given bare crosses as `!v` (the model wraps it as from_cartesian_product does)
+            vt = "[" + ";".join(("!" + str(opts[k])) if isinstance(opts[k], (str, int, float)) else ",".join(str(v) for v in as_list(opts[k]))
+                                for k in keys) + "]"
             impl = "[" + ";".join(",".join(str(t[k]) for k in keys) for t in opm.tasks) + "]"
             add(f"product {kt} {vt}", impl, {"options": opts})
             ctx.count(("product", kt, vt), opm.ntasks > 1, "product", sample={"options": opts, "ntasks": opm.ntasks})
@@ -193,6 +195,17 @@ def body(ctx):
                 if found != expect:
                     ctx.finding("find/not_equality_filter", "find does not return exactly the tasks whose option equals the value",
                                 {"options": opts, "key": key, "val": val, "found": found, "expected": expect})
+            # a key that is not an option is rejected
+            bad = rng.choice(["nokey", "Alpha", "alph", "month_", ""] + [k + "x" for k in keys])
+            if bad not in keys and bad != "":
+                try:
+                    r = "ok " + C.ilist(opm.find(**{bad: 1}))
+                except AssertionError:
+                    r = "err unknownKey"
+                except Exception as e:
+                    r = "err " + type(e).__name__
+                add(f"find {kt} {vt} {bad} 1", r, {"options": opts, "key": bad})
+                ctx.count(("findbad", kt, bad), True, "find_unknown_key")
             # round trip through json
             dd = json.loads(json.dumps(opm.to_dict()))
             opm2 = hyruns.OptionManager.from_dict(dd)
